@@ -6,6 +6,7 @@
 package main
 
 import (
+	"runtime"
 	"fmt"
 	"os"
 	"strconv"
@@ -47,8 +48,32 @@ func perf(strategy string) types.PerformanceConfig {
 	return p
 }
 
+// watchdog: a harness body that does not return within two minutes (they take milliseconds) hangs - a deadlock
+// in Stop, a lost wake-up. The limit is 10^4 times the normal duration, so load cannot reach it.
+func watchdog(what string, body func()) {
+	done := make(chan struct{})
+	go func() { body(); close(done) }()
+	select {
+	case <-done:
+	case <-time.After(2 * time.Minute):
+		fmt.Println("HANG: harness body did not return within 2m:", what)
+		buf := make([]byte, 1<<16)
+		n := runtime.Stack(buf, true)
+		os.Stdout.Write(buf[:n])
+		os.Exit(1)
+	}
+}
+
 func one(kind, strategy string, iter int) {
-	s := streamsql.New(streamsql.WithCustomPerformance(perf(strategy)), streamsql.WithLogger(logger.NewDiscardLogger()))
+	watchdog(fmt.Sprint("kind=", kind, " strategy=", strategy, " iter=", iter), func() { oneBody(kind, strategy, iter) })
+}
+
+func oneBody(kind, strategy string, iter int) {
+	pc := perf(strategy)
+	if iter%4 == 3 {
+		pc.BufferConfig.DataChannelSize = 0 // the smallest legal input buffer: every Emit overflows unless the processor is waiting
+	}
+	s := streamsql.New(streamsql.WithCustomPerformance(pc), streamsql.WithLogger(logger.NewDiscardLogger()))
 	if err := s.Execute(queries[kind]); err != nil {
 		fmt.Println("EXECUTE ERROR", kind, err)
 		os.Exit(3)
